@@ -163,6 +163,96 @@ pub fn check(c: &Case) -> Verdict {
     Verdict::pass_c(if nt { Some(fp_json(c)) } else { None }, classes)
 }
 
+// ---------------------------------------------------------------------------
+// one reader, several reads, the target's memory changing in between
+// ---------------------------------------------------------------------------
+
+#[derive(Debug, Clone, PartialEq, Eq, Hash, Serialize, Deserialize)]
+pub struct HStep {
+    /// rewrite this window of the target's memory before the read: (start, len, xor byte)
+    pub poke: Option<(u32, u16, u8)>,
+    pub start: u32,
+    pub len: u32,
+    pub to_vec: bool,
+    /// read near the previous read (within 8 KiB) instead of at `start`
+    pub near_previous: bool,
+}
+
+#[derive(Debug, Clone, PartialEq, Eq, Hash, Serialize, Deserialize)]
+pub struct HCase {
+    pub style: Style,
+    pub ro: bool,
+    pub steps: Vec<HStep>,
+}
+
+pub fn check_history(c: &HCase) -> Verdict {
+    let r = with_arena(|a| {
+        for (i, b) in a.bytes().iter_mut().enumerate() {
+            *b = pat(i as u64, SEED);
+        }
+        if !a.ensure_traced() {
+            return Err("cannot ptrace the arena helper".to_string());
+        }
+        let pid = a.pid();
+        let base = if c.ro { ARENA_RO } else { ARENA };
+        let mut rd = match c.style {
+            Style::VirtualMem => MemReader::for_virtual_mem(pid),
+            Style::File => match MemReader::for_file(pid) {
+                Ok(r) => r,
+                Err(e) => return Err(format!("for_file: {e}")),
+            },
+            Style::Ptrace => MemReader::for_ptrace(pid),
+            _ => MemReader::new(pid),
+        };
+        let mut prev: u64 = 0;
+        let mut poked = false;
+        for (k, st) in c.steps.iter().enumerate() {
+            if let Some((ps, pl, x)) = st.poke {
+                // centred on the previous read when asked for (that is where a stale copy would be)
+                let ps = if st.near_previous { prev.saturating_sub(64) } else { ps as u64 % ARENA_SIZE };
+                let pl = (1 + pl as u64 % 4096).min(ARENA_SIZE - ps);
+                let x = x | 1;
+                let cur: Vec<u8> = a.bytes()[ps as usize..(ps + pl) as usize].iter().map(|b| b ^ x).collect();
+                a.write(ps, &cur);
+                poked = true;
+            }
+            let start = if st.near_previous { (prev + (st.start as u64 % 8192)).saturating_sub(4096).min(ARENA_SIZE - 1) } else { st.start as u64 % ARENA_SIZE };
+            let len = 1 + (st.len as u64 % 65536).min(ARENA_SIZE - start - 1);
+            prev = start;
+            let addr = (base + start) as usize;
+            let got: Result<Vec<u8>, String> = if st.to_vec {
+                rd.read_to_vec(addr, std::num::NonZeroUsize::new(len as usize).unwrap()).map_err(|e| format!("{e:?}"))
+            } else {
+                let mut dst = vec![0xA5u8; len as usize];
+                rd.read(addr, &mut dst).map(|n| dst[..n].to_vec()).map_err(|e| format!("{e:?}"))
+            };
+            let truth = a.bytes()[start as usize..(start + len) as usize].to_vec();
+            match got {
+                Err(e) => return Ok(Some((format!("C17:{:?}:history:readable-range-fails", c.style), format!("read #{k} [{start:#x},+{len:#x}) lies entirely in readable memory but failed: {e}")))),
+                Ok(g) => {
+                    if g != truth {
+                        let i = (0..g.len().min(truth.len())).find(|i| g[*i] != truth[*i]);
+                        return Ok(Some((
+                            format!("C17:{:?}:history:{}", c.style, if g.len() != truth.len() { "short-read-of-readable-range" } else { "stale-or-wrong-bytes" }),
+                            format!("read #{k} [{start:#x},+{len:#x}) through a reader that was used before (memory rewritten in between: {poked}): {} bytes returned, first difference at {i:?}", g.len()),
+                        )));
+                    }
+                }
+            }
+        }
+        Ok(None)
+    });
+    match r {
+        Ok(Ok(None)) => {
+            let nt = c.steps.len() >= 2 && c.steps.iter().skip(1).any(|s| s.poke.is_some());
+            Verdict::pass_c(if nt { Some(fp_json(c)) } else { None }, vec![format!("{:?}", c.style)])
+        }
+        Ok(Ok(Some((sig, d)))) => Verdict::viol(sig, d),
+        Ok(Err(e)) => Verdict::Inconclusive(e),
+        Err(e) => Verdict::Inconclusive(format!("arena: {e}")),
+    }
+}
+
 pub fn case_strategy() -> impl Strategy<Value = Case> {
     (
         prop_oneof![Just(Style::VirtualMem), Just(Style::File), Just(Style::Ptrace), Just(Style::Auto), Just(Style::CopyFromProcess)],
@@ -191,11 +281,33 @@ pub fn run(ctx: &mut LaneCtx) {
         },
         check,
     );
+    ctx.run_sub(
+        SubSpec {
+            name: "reader-history",
+            cases: (12_000, 600_000),
+            rule: "ONE reader (each strategy, auto-probe) used for 1..6 reads of fully readable ranges (lengths 1..64 KiB, anywhere or within 8 KiB of the previous read) while the harness rewrites windows of the target's memory between the reads (also exactly where the previous read was); oracle = every read returns the bytes the target holds at that moment; non-trivial = memory rewritten before a later read; distinct = hash of case",
+            strategy: (
+                prop_oneof![Just(Style::VirtualMem), Just(Style::File), Just(Style::Ptrace), Just(Style::Auto)],
+                any::<bool>(),
+                proptest::collection::vec(
+                    (proptest::option::weighted(0.6, (any::<u32>(), any::<u16>(), any::<u8>())), any::<u32>(), prop_oneof![0u32..64, 0u32..5000, any::<u32>()], any::<bool>(), proptest::bool::weighted(0.6))
+                        .prop_map(|(poke, start, len, to_vec, near_previous)| HStep { poke, start, len, to_vec, near_previous }),
+                    1..7,
+                ),
+            )
+                .prop_map(|(style, ro, steps)| HCase { style, ro, steps })
+                .boxed(),
+            max_shrink_iters: 1024,
+            log_current: true,
+        },
+        check_history,
+    );
 }
 
 pub fn replay(sub: &str, case: &Value) -> Verdict {
     match sub {
         "strategies" => replay_case::<Case>(case, check),
+        "reader-history" => replay_case::<HCase>(case, check_history),
         _ => Verdict::Inconclusive(format!("unknown sub {sub}")),
     }
 }
